@@ -2,11 +2,12 @@
 // and prints the projected observations (JSON).
 //
 // Three drivers per run:
-//   direct: the unexported workingState through the verif hook (CheckAddTx/Buffered/Rebase),
-//           with a snapshot of its raw fields after every request;
-//   api:    the public Buffer (New/Initialize/AddTx/Buffered/Rebase through the kernel
-//           goroutine), sequential caller, Buffered(nil) read after every request;
-//   conc:   the public Buffer with several goroutines issuing requests concurrently.
+//
+//	direct: the unexported workingState through the verif hook (CheckAddTx/Buffered/Rebase),
+//	        with a snapshot of its raw fields after every request;
+//	api:    the public Buffer (New/Initialize/AddTx/Buffered/Rebase through the kernel
+//	        goroutine), sequential caller, Buffered(nil) read after every request;
+//	conc:   the public Buffer with several goroutines issuing requests concurrently.
 //
 // The state/transaction semantics (applyTx, deleterFor) is the fixture that is defined
 // identically in coq/Model/TxBufInst.v.
@@ -22,6 +23,8 @@ import (
 	"os"
 	"runtime"
 	"sync"
+	"sync/atomic"
+	"time"
 
 	"github.com/gordian-engine/gordian/gdriver/gtxbuf"
 )
@@ -157,6 +160,9 @@ type CaseIn struct {
 	Base    []uint64 `json:"base"`
 	Ops     []OpIn   `json:"ops"`
 	Threads [][]OpIn `json:"threads,omitempty"`
+	// Slow (concurrent cases): microseconds the deleter's predicate takes per transaction, so that the in-place
+	// compaction of a rebase lasts long enough for a request that is not serialised with it to observe it
+	Slow uint64 `json:"slow,omitempty"`
 }
 
 type Input struct {
@@ -326,7 +332,38 @@ func runAPI(c CaseIn) (co CaseOut) {
 		}
 	}()
 	ctx, cancel := context.WithCancel(context.Background())
-	buf := gtxbuf.New[State, Tx](ctx, quiet, applyFor(c.Cap), deleterFor(c.Mode))
+	del := deleterFor(c.Mode)
+	if c.Slow > 0 {
+		fast := del
+		del = func(ctx context.Context, reject []Tx) func(Tx) bool {
+			p := fast(ctx, reject)
+			n := 0
+			return func(t Tx) bool {
+				// the first three decisions are instantaneous (the compaction has begun to move entries), the later
+				// ones are slow: the half-compacted list stays in place for a while
+				if n++; n > 3 {
+					time.Sleep(time.Duration(c.Slow) * time.Microsecond)
+				}
+				return p(t)
+			}
+		}
+	}
+	apply := applyFor(c.Cap)
+	// slow concurrent cases: the first operation of the first thread is an AddTx inside whose validation the kernel is held
+	// (gate) until every other caller has queued its request; the kernel then serves those requests back to back
+	var gateArmed atomic.Bool
+	entered, release := make(chan struct{}), make(chan struct{})
+	if c.Slow > 0 {
+		plain := apply
+		apply = func(ctx context.Context, st State, t Tx) (State, error) {
+			if gateArmed.CompareAndSwap(true, false) {
+				close(entered)
+				<-release
+			}
+			return plain(ctx, st, t)
+		}
+	}
+	buf := gtxbuf.New[State, Tx](ctx, quiet, apply, del)
 	defer buf.Wait()
 	defer cancel()
 	if !buf.Initialize(ctx, State(cp(c.Base))) {
@@ -360,10 +397,21 @@ func runAPI(c CaseIn) (co CaseOut) {
 		start := make(chan struct{})
 		var wg sync.WaitGroup
 		co.Threads = make([][]StepOut, len(c.Threads))
+		gated := c.Slow > 0 && len(c.Threads[0]) > 0 && c.Threads[0][0].K == "a"
+		if gated {
+			gateArmed.Store(true)
+		}
 		for i := range c.Threads {
 			wg.Add(1)
 			go func(i int) {
 				defer wg.Done()
+				if gated && i > 0 {
+					// wait until the kernel is inside the gated AddTx of thread 0
+					select {
+					case <-entered:
+					case <-time.After(time.Second):
+					}
+				}
 				<-start
 				for j, op := range c.Threads[i] {
 					co.Threads[i] = append(co.Threads[i], doAPI(ctx, buf, op))
@@ -374,6 +422,15 @@ func runAPI(c CaseIn) (co CaseOut) {
 			}(i)
 		}
 		close(start)
+		if gated {
+			select {
+			case <-entered:
+				time.Sleep(3 * time.Millisecond) // the other callers queue their requests behind the held kernel
+			case <-time.After(time.Second):
+			}
+			gateArmed.Store(false)
+			close(release)
+		}
 		wg.Wait()
 		co.Final = fromTxs(buf.Buffered(ctx, nil))
 	}
